@@ -440,6 +440,32 @@ pub fn many_commits_scenario(name: &str, depth: usize, extra: &[Op]) -> Scenario
     }
 }
 
+/// Two heads whose indexes have a different number of digits (9 and 10): replica 1 branched off at block 8 and
+/// committed once, replica 0 committed twice more and then received replica 1's block.
+pub fn uneven_heads_scenario(name: &str, depth: usize, extra: &[Op]) -> Scenario {
+    let a = arr_docs();
+    let docs = vec![a[0].clone(), a[2].clone(), a[1].clone(), a[3].clone(), a[9].clone()];
+    let mut prologue = vec![];
+    for k in 0..8 {
+        prologue.push(Op::Upd(0, [0, 1, 2, 1][k % 4]));
+        prologue.push(Op::Commit(0, 0));
+    }
+    prologue.extend_from_slice(&[Op::Sync(1, 0), Op::Upd(1, 3), Op::Commit(1, 0), Op::Upd(0, 0), Op::Commit(0, 0), Op::Upd(0, 1), Op::Commit(0, 0), Op::Sync(0, 1)]);
+    let mut alphabet = vec![Op::Upd(0, 4), Op::Commit(0, 1), Op::Sync(1, 0), Op::Reopen(0), Op::Reopen(1), Op::Upd(1, 4), Op::Commit(1, 0), Op::Resolve(0, 0, 0)];
+    alphabet.extend_from_slice(extra);
+    Scenario {
+        name: name.to_string(),
+        nrep: 2,
+        menu: menu(docs),
+        prologue,
+        alphabet,
+        key_opts: KeyOpts::default(),
+        max_depth: depth,
+        track: false,
+        order: None,
+    }
+}
+
 /// Three replicas edited the same element and the same array differently; replica 0 has received both
 /// other branches: objects with THREE live leaves.
 pub fn three_leaves_scenario(name: &str, depth: usize, extra: &[Op]) -> Scenario {
@@ -606,6 +632,7 @@ pub fn cross_scenarios(thorough: bool) -> Vec<Scenario> {
         array_deleted_scenario("x-pair-array-deleted-vs-edited-twice", 2, depth, &[]),
         emptied_scenario("x-pair-array-emptied-in-one-step-vs-insert", 1, depth, &[]),
         emptied_scenario("x-pair-array-emptied-in-two-steps-vs-insert", 2, depth, &[]),
+        uneven_heads_scenario("x-pair-heads-9-and-10", depth, &[]),
     ];
     base.into_iter()
         .map(|mut sc| {
